@@ -92,7 +92,7 @@ func (a *An) c10KDF(rule string) {
 				}
 			}
 		}
-		R.Check(strings.Join(seq, " ") == "Reset Write(new([1]byte)[:]) Write($secbytes[:]) Sum(nil)" && elemOK, rule, "h|definition", "h(b, secbytes) = Hash(b ‖ secbytes)", a.C.Pos(f.Pos()), strings.Join(seq, " "))
+		R.Check(strings.Join(seq, " ") == "Reset Write(new([1]byte)[:]) Write($secbytes) Sum(nil)" && elemOK, rule, "h|definition", "h(b, secbytes) = Hash(b ‖ secbytes)", a.C.Pos(f.Pos()), strings.Join(seq, " "))
 	}
 	if f := a.MustFn("calculateAKEKeys"); f != nil {
 		sec := "AppendMPI(nil, $s)"
